@@ -102,13 +102,101 @@ func eventWords(f *ssa.Function, classify func(in ssa.Instruction) string) ([]st
 	return out, overflow
 }
 
+
+// scopeRoles: unexported fields and helpers of scope.Scope discovered by type
+// and by what the exported methods do.
+type scopeRoles struct {
+	closed, wg, parent, mu string
+	guard, closeH, prevClosed *ssa.Function
+}
+
+func discoverScopeRoles(c *Ctx) *scopeRoles {
+	r := &scopeRoles{}
+	scopeT := c.P.Named(scopePkg, "Scope")
+	closeF := c.P.Func(scopePkg, "Scope", "Close")
+	if scopeT == nil || closeF == nil {
+		return nil
+	}
+	st := scopeT.Underlying().(*types.Struct)
+	for i := 0; i < st.NumFields(); i++ {
+		f := st.Field(i)
+		ts := f.Type().String()
+		switch {
+		case ts == "sync.WaitGroup":
+			r.wg = f.Name()
+		case ts == "sync.Mutex" || ts == "sync.RWMutex":
+			r.mu = f.Name()
+		case !f.Embedded() && strings.HasSuffix(ts, "/app.Scope"):
+			r.parent = f.Name()
+		}
+	}
+	// closed: the bool field stored true in Close
+	eachInstr(closeF, func(_ *ssa.BasicBlock, _ int, in ssa.Instruction) {
+		if s, ok := in.(*ssa.Store); ok {
+			if b, isB := constBool(s.Val); isB && b {
+				if fa, ok := s.Addr.(*ssa.FieldAddr); ok && fa.X == ssa.Value(closeF.Params[0]) {
+					n := fieldName(fa)
+					r.closed = n[strings.LastIndex(n, ".")+1:]
+				}
+			}
+		}
+	})
+	names := eventConstNames(c.P)
+	for _, ci := range Calls(closeF) {
+		g := ci.Static
+		if g == nil || g.Pkg != closeF.Pkg || g.Signature.Recv() == nil || (g.Object() != nil && g.Object().Exported()) {
+			continue
+		}
+		hasPanic, hasAfterClose := false, false
+		eachInstr(g, func(_ *ssa.BasicBlock, _ int, in ssa.Instruction) {
+			if _, ok := in.(*ssa.Panic); ok {
+				hasPanic = true
+			}
+			if triggerEvent(in, names) == "AfterClose" {
+				hasAfterClose = true
+			}
+		})
+		if hasPanic && r.guard == nil {
+			r.guard = g
+		}
+		if hasAfterClose {
+			r.closeH = g
+		}
+	}
+	if kill := c.P.Func(scopePkg, "Scope", "Kill"); kill != nil {
+		for _, ci := range Calls(kill) {
+			g := ci.Static
+			if g == nil || g.Pkg != kill.Pkg || g.Signature.Recv() == nil {
+				continue
+			}
+			hasPanic := false
+			eachInstr(g, func(_ *ssa.BasicBlock, _ int, in ssa.Instruction) {
+				if _, ok := in.(*ssa.Panic); ok {
+					hasPanic = true
+				}
+			})
+			if hasPanic && r.prevClosed == nil {
+				r.prevClosed = g
+			}
+		}
+	}
+	if r.closed == "" || r.wg == "" || r.mu == "" || r.guard == nil || r.closeH == nil {
+		return nil
+	}
+	return r
+}
+
 func rulesC11(c *Ctx) {
 	names := eventConstNames(c.P)
 	closeF := c.P.Func(scopePkg, "Scope", "Close")
-	closeH := c.P.Func(scopePkg, "Scope", "close")
 	waitF := c.P.Func(scopePkg, "Scope", "Wait")
-	guardF := c.P.Func(scopePkg, "Scope", "preventDoubleClosed")
 	scopeT := c.P.Named(scopePkg, "Scope")
+	sro := discoverScopeRoles(c)
+	if sro == nil {
+		c.Bad("anchor", "roles of scope.Scope (closed flag, task group, mutex, double-close guard, close helper)", 0, "cannot discover them from Close/Kill; cannot certify")
+		return
+	}
+	closeH, guardF := sro.closeH, sro.guard
 	if closeF == nil || closeH == nil || waitF == nil || guardF == nil || scopeT == nil || len(names) < 11 {
 		c.Bad("anchor", "scope.(*Scope).Close/close/Wait/preventDoubleClosed, app.*Event", 0, "anchor not found; cannot certify")
 		return
@@ -118,7 +206,7 @@ func rulesC11(c *Ctx) {
 			return ev
 		}
 		if st, ok := in.(*ssa.Store); ok {
-			if fa, ok := st.Addr.(*ssa.FieldAddr); ok && fieldName(fa) == "scope.Scope.closed" {
+			if fa, ok := st.Addr.(*ssa.FieldAddr); ok && fieldName(fa) == "scope.Scope."+sro.closed {
 				if b, ok := constBool(st.Val); ok && b {
 					return "set-closed"
 				}
@@ -216,7 +304,7 @@ func rulesC11(c *Ctx) {
 	// ---- R3 double close refused ----------------------------------------------------
 	le := NewLockEngine(c.P)
 	la := le.Analyze(closeF)
-	_, mui := fieldIndex(scopeT, "mu")
+	_, mui := fieldIndex(scopeT, sro.mu)
 	var guards []*CallInfo
 	for _, ci := range Calls(closeF) {
 		if ci.Static == guardF && ci.Kind == "call" {
@@ -244,7 +332,7 @@ func rulesC11(c *Ctx) {
 	eachInstr(guardF, func(b *ssa.BasicBlock, _ int, in ssa.Instruction) {
 		if _, ok := in.(*ssa.Panic); ok {
 			for k := range gf.At(b) {
-				if n, _ := fieldLoadName(k.v); n == "closed" && k.pol {
+				if n, _ := fieldLoadName(k.v); n == sro.closed && k.pol {
 					pan++
 				}
 			}
@@ -253,7 +341,7 @@ func rulesC11(c *Ctx) {
 	c.Check(pan > 0, "R3", "preventDoubleClosed refuses loudly", guardF.Pos(), "panics on the closed edge", "the double-close guard no longer panics when the scope is closed")
 	for _, mn := range []string{"Kill", "Stop", "AppendError"} {
 		f := c.P.Func(scopePkg, "Scope", mn)
-		pc := c.P.Func(scopePkg, "Scope", "preventClosed")
+		pc := sro.prevClosed
 		if f == nil || pc == nil {
 			c.Bad("R3", "scope.(*Scope)."+mn+" tests closed first", 0, "anchor not found")
 			continue
@@ -271,7 +359,7 @@ func rulesC11(c *Ctx) {
 	}
 
 	// ---- R4 children/tasks are awaited ------------------------------------------------
-	_, wgi := fieldIndex(scopeT, "wg")
+	_, wgi := fieldIndex(scopeT, sro.wg)
 	wgUse := func(f *ssa.Function, method string) (*CallInfo, bool) {
 		for _, ci := range Calls(f) {
 			if ci.Static != nil && qualName(ci.Static) == "sync.(WaitGroup)."+method {
@@ -335,7 +423,7 @@ func rulesC11(c *Ctx) {
 		}
 		c.Check(okr, "R5", fmt.Sprintf("return of Close at line %d", c.P.Fset.Position(r.Pos()).Line), r.Pos(), "returns Err() evaluated after the last event", "Close does not return the scope's error as it stands after the last event")
 	}
-	c.Floor("R5", n5, 2)
+	c.Floor("R5", n5, 1)
 
 	// ---- R6 listener order ------------------------------------------------------------------
 	ruleListenerOrder(c)
@@ -392,16 +480,32 @@ func ruleListenerOrder(c *Ctx) {
 		})
 		n++
 		c.Check(okOn && k > 0, "R6", "eventscope.("+tn+").On appends", on.Pos(), "the new listener is placed after the existing ones", "On does not append the listener behind the existing ones — registration order is lost")
-		// Trigger: ascending range, first error returned
+		// Trigger: ascending range, first error returned (the walk may live in a private helper)
 		okT := true
 		why := ""
 		var dyn []*ssa.Call
-		for _, ci := range Calls(trig) {
-			if ci.Static == nil && ci.Method == nil && ci.Kind == "call" {
-				if _, isB := ci.Common.Value.(*ssa.Builtin); !isB {
-					if call, ok := ci.Instr.(*ssa.Call); ok {
-						dyn = append(dyn, call)
+		walkFn := trig
+		var helperCall *ssa.Call
+		for _, g := range reachableSamePkg(trig, 2) {
+			var d []*ssa.Call
+			for _, ci := range Calls(g) {
+				if ci.Static == nil && ci.Method == nil && ci.Kind == "call" {
+					if _, isB := ci.Common.Value.(*ssa.Builtin); !isB {
+						if call, ok := ci.Instr.(*ssa.Call); ok {
+							d = append(d, call)
+						}
 					}
+				}
+			}
+			if len(d) > 0 {
+				dyn, walkFn = d, g
+				break
+			}
+		}
+		if walkFn != trig {
+			for _, ci := range Calls(trig) {
+				if ci.Static == walkFn {
+					helperCall, _ = ci.Instr.(*ssa.Call)
 				}
 			}
 		}
@@ -409,36 +513,35 @@ func ruleListenerOrder(c *Ctx) {
 			okT, why = false, fmt.Sprintf("expected one listener invocation, found %d", len(dyn))
 		} else {
 			call := dyn[0]
-			// callee value = element load of index phi(-1)+1
 			ld, _ := call.Call.Value.(*ssa.UnOp)
 			var ia *ssa.IndexAddr
 			if ld != nil {
 				ia, _ = ld.X.(*ssa.IndexAddr)
 			}
-			asc := false
-			if ia != nil {
-				if bo, ok := ia.Index.(*ssa.BinOp); ok {
-					if p, ok := bo.X.(*ssa.Phi); ok {
-						for _, e := range p.Edges {
-							if k0, ok := constInt(e); ok && k0 == -1 {
-								asc = true
-							}
-						}
-					}
-				}
+			if ia == nil || !ascendingIndex(ia.Index) {
+				okT, why = false, "listeners are not walked from the first one in ascending order"
 			}
-			if !asc {
-				okT, why = false, "listeners are not walked with an ascending range loop"
-			}
-			tf := factsFor(trig)
+			tf := factsFor(walkFn)
 			ret := false
-			for _, r := range returnsOf(trig) {
+			for _, r := range returnsOf(walkFn) {
 				if tf.KnownNil(r.Block(), call, false) && (resolve(r.Results[0]) == ssa.Value(call) || sameValue(resolve(r.Results[0]), call)) {
 					ret = true
 				}
 			}
 			if !ret {
 				okT, why = false, "the first listener error is not returned at once"
+			}
+			if helperCall != nil {
+				// the helper's verdict is what Trigger returns
+				passed := false
+				for _, r := range returnsOf(trig) {
+					if resolve(r.Results[0]) == ssa.Value(helperCall) {
+						passed = true
+					}
+				}
+				if !passed {
+					okT, why = false, "the result of the listener walk is not returned by Trigger"
+				}
 			}
 		}
 		n++
@@ -453,10 +556,16 @@ func ruleListenerOrder(c *Ctx) {
 					}
 				}
 			}
-			okP := pc != nil && len(dyn) == 1 && dominates(pc, dyn[0])
+			var own ssa.Instruction
+			if helperCall != nil {
+				own = helperCall
+			} else if len(dyn) == 1 {
+				own = dyn[0]
+			}
+			okP := pc != nil && own != nil && dominates(pc, own)
 			if okP {
 				tf := factsFor(trig)
-				okP = tf.KnownNil(dyn[0].Block(), pc, true)
+				okP = tf.KnownNil(own.Block(), pc, true)
 			}
 			n++
 			c.Check(okP, "R6", "child event scope triggers the parent first", trig.Pos(), "parent.Trigger dominates the child's own listeners, which run only if it returned nil", "the parent's listeners do not run first (or their error does not stop the trigger)")
@@ -569,7 +678,14 @@ func ruleScopeWaitWaits(c *Ctx, rule string) {
 		c.Bad(rule, "scope.(*Scope).Wait", 0, "anchor not found")
 		return
 	}
-	_, wgi := fieldIndex(scopeT, "wg")
+	wgi := -1
+	if st, ok := scopeT.Underlying().(*types.Struct); ok {
+		for i := 0; i < st.NumFields(); i++ {
+			if st.Field(i).Type().String() == "sync.WaitGroup" {
+				wgi = i
+			}
+		}
+	}
 	var wc *CallInfo
 	for _, ci := range Calls(waitF) {
 		if ci.Static != nil && qualName(ci.Static) == "sync.(WaitGroup).Wait" {
